@@ -86,7 +86,7 @@ func histGenerate(ctx *core.Ctx, exhaustLen, nSeeded, maxLen int, stream uint64,
 }
 
 func c03Run(ctx *core.Ctx) {
-	exLen, nSeeded, maxLen := 2, 40000, 14
+	exLen, nSeeded, maxLen := 2, 90000, 16
 	if ctx.Thorough() {
 		exLen, nSeeded, maxLen = 3, 600000, 20
 	}
